@@ -239,6 +239,13 @@ class PWLCalibration(keras.layers.Layer):
     self.monotonicity = monotonicity
     self.convexity = convexity
     self.is_cyclic = is_cyclic
+    if (utils.canonicalize_monotonicity(self.monotonicity) == 0 and
+        pwl_calibration_lib.BoundConstraintsType.CLAMPED in
+        (self._output_min_constraints, self._output_max_constraints)):
+      # The projection implements clamping only for monotonic calibrators.
+      raise ValueError("'clamp_min' and 'clamp_max' require 'monotonicity' to "
+                       "be specified: clamping is not implemented for non "
+                       "monotonic functions.")
 
     if kernel_initializer == "equal_heights":
       self.kernel_initializer = UniformOutputInitializer(
